@@ -7,7 +7,7 @@ flowctl, mixed) replayed per endpoint through the acceptor. The known finding (e
 re-sent after RESET_STREAM) is reported by the acceptor with the reason `stream-after-reset:empty-open-notify`
 and mapped to the signature `e2e:c12:stream-after-reset:empty-open-notify`."""
 import e2e_ops_send
-from vlib import step_lean
+from vlib import step_extract, step_lean
 
 from props.parts import C03_sendtrace
 
@@ -17,8 +17,10 @@ PROP_MODULES = ["QuicProofs.Props.C12DataSender"]
 def run(ctx):
     ctx.assumptions.append("send-trace acceptor (Lean) is tied to /repo by replaying real endpoint histories (tie T, sampling); "
                            "the component models DataSender/OpenIds/CloseSender are hand transcriptions of sync/data_sender*.rs, "
-                           "stream/manager.rs, connection/close_sender.rs (private internals: no differential run)")
-    step_lean(ctx, PROP_MODULES, [])
+                           "stream/manager.rs, connection/close_sender.rs (private internals: no differential run; close_sender.rs is "
+                           "re-read on every run by tools/extractors/close_sender.py and bridged, tie G)")
+    step_extract(ctx, ["close_sender"])
+    step_lean(ctx, PROP_MODULES, ["QuicProofs.Bridge.CloseSender"])
     traces = C03_sendtrace.run_traces(ctx, "C12")
     if traces is None:
         return
